@@ -49,7 +49,7 @@ def gen_case(rng, tier):
     restr = rng.choice(RESTRICTIONS)
     f = case["final"]
     if restr is not None and cols:
-        kind = rng.choice(["calc", "sel", "sort", "join"])
+        kind = rng.choice(["calc", "sel", "sort", "join", "join"])
         a, b2 = rng.choice(cols), rng.choice(cols)
         if kind == "calc":
             free = [x for x in "efg" if x not in cols]
@@ -60,7 +60,15 @@ def gen_case(rng, tier):
         elif kind == "sort":
             f = {"kind": "sort", "node": ["sort", ["leaf", "__T__"], [[["rfn", "neg", [["ref", a]], restr], True]], None]}
         elif f["kind"] == "join":
-            f = dict(f, pred=["rcmp", "ge", ["ref", a], ["lit", 0], restr])
+            base_p = ["rcmp", "ge", ["ref", a], ["lit", 0], restr]
+            # also predicates that fold to True as a whole but still hold the restricted function:
+            # the join node keeps the predicate object, so it must still be supported
+            f = dict(f, pred=rng.choice([
+                base_p,
+                ["or", [base_p, ["plit", True]], "ctor"],
+                ["not", ["and", [base_p, ["plit", False]], "ctor"]],
+                ["or", [["plit", True], base_p], "factory"],
+            ]))
         case["final"] = f
     case["restriction"] = restr
     return case
